@@ -995,3 +995,34 @@ def expects_then_late_handler():
             ['idle', 'A'], ['obs_all', 'end']]
     return dict(buses=['A'], reals={'t1': ['0', '1/10'], 't2': ['0', '1/5']}, handlers=handlers, main=main,
                 actors={'e1': [['expect', 'A', 'P', '3/5']], 'e2': [['sleep', 't1'], ['expect', 'A', 'P', '2']]}, horizon=8, settle=1)
+
+
+
+def many_buses_backlog(n_buses=40, backlog=30):
+    """many other live (idle) buses and a backlog of un-awaited events in front of the awaited child: the in-handler await has to
+    keep polling until the child is done, however many buses and queued events there are."""
+    hp = [['disp', 'A', 'L', f'N{i}'] for i in range(backlog)] + [['dispawait', 'A', 'C', 'C1'], ['ret', 'p']]
+    handlers = [['A', 'P', 'hP', hp], ['A', 'C', 'hC', [['sleep', 'd2'], ['ret', 'c']]], ['A', 'L', 'hL', [['ret', 'l']], {'sync': True}]]
+    main = [['root', 'A', 'P', 'P1'], ['await', 'P1'], ['idle', 'A'], ['obs_all', 'end']]
+    return dict(buses=['A'], decoys={'A': n_buses}, reals={'d2': D}, handlers=handlers, main=main, horizon=6)
+
+
+def sequential_awaited_children_with_errors(n=4):
+    """a handler awaits n children one after the other; every child has a succeeding and a raising handler (the raising one after a
+    suspension).  Each child is the parent's child (not its predecessor's), all handlers run once, the parent completes."""
+    hp = []
+    for i in range(n):
+        hp += [['dispawait', 'A', 'C', f'C{i + 1}']]
+    hp += [['ret', 'p']]
+    handlers = [['A', 'P', 'hP', hp], ['A', 'C', 'hOk', [['ret', 'ok']]], ['A', 'C', 'hBoom', [['sleep', 'd1'], ['raise', 'ValueError']]]]
+    main = [['root', 'A', 'P', 'P1'], ['await', 'P1'], ['idle', 'A'], ['obs_all', 'end']]
+    return dict(buses=['A'], reals={'d1': ['0', '1/10']}, handlers=handlers, main=main, horizon=6)
+
+
+def spawned_late_child():
+    """a handler starts a background task and returns; the event completes and is observed complete; only then does the leftover
+    task dispatch a follow-up event (with the handler's inherited context).  What was observed complete stays as it was."""
+    handlers = [['A', 'P', 'hP', [['spawn', [['sleep', 'd3'], ['disp', 'A', 'L', 'Late1'], ['sleep', 'd1']]], ['ret', 'p']]],
+                ['A', 'L', 'hL', [['sleep', 'd1'], ['ret', 'l']]]]
+    main = [['root', 'A', 'P', 'P1'], ['await', 'P1'], ['obs', 'after_await', 'P1'], ['sleep', 't1'], ['obs', 'later', 'P1'], ['sleep', '1'], ['idle', 'A'], ['obs_all', 'end']]
+    return dict(buses=['A'], reals={'d1': ['0', '1/5'], 'd3': ['1/100', '1/5'], 't1': ['0', '2/5']}, handlers=handlers, main=main, horizon=6)
